@@ -53,6 +53,10 @@ VARIANTS = {
                           "-fno-omit-frame-pointer"]),
     "ndebug":  ("gcc",   ["-O3", "-DNDEBUG"]),                    # a release configuration: assert() compiled out
     "uchar":   ("gcc",   ["-O2", "-funsigned-char"]),            # ABIs whose plain char is unsigned (ARM, PowerPC, RISC-V, s390)
+    "autoinit": ("gcc",  ["-O2", "-ftrivial-auto-var-init=pattern"]),   # every automatic variable starts with a pattern: stale-stack luck is gone
+    "libcfirst": ("gcc", ["-O2", "-include", "stdlib.h", "-include", "sys/types.h", "-include", "endian.h", "-include", "arpa/inet.h", "-include", "stdio.h"]),
+                                                                        # a translation unit in which C library headers come first (their macros are visible)
+    "allocfail": ("gcc", ["-O2", "-include", os.path.join(HARNESS, "verif_allocfail.h")]),   # every allocation fails
     "asanrec": ("clang", ["-O1", "-g", "-fsanitize=address", "-fsanitize-recover=address", "-fno-omit-frame-pointer"]),
     "ubsan":   ("clang", ["-O1", "-g", "-fsanitize=undefined,alignment", "-fsanitize-recover=all"]),
     "align":   ("clang", ["-O1", "-g", "-fsanitize=alignment", "-fsanitize-recover=alignment"]),
@@ -126,6 +130,20 @@ def build_exec(wd, variant="O2", extra_sources=(), extra_flags=(), name=None):
     r = subprocess.run(cmd, capture_output=True, text=True)
     if r.returncode != 0:
         raise CompileError("build of %s failed:\n%s" % (variant, r.stderr[-4000:]))
+    return exe
+
+
+def build_exec32(wd):
+    """The ILP32 executor (harness/exec32.c): freestanding -m32 build of the library + bindings; None if the toolchain cannot do it."""
+    bind = gen_bindings(wd)
+    exe = os.path.join(wd, "exec_ilp32")
+    if os.path.exists(exe): return exe
+    cmd = ["gcc", "-m32", "-O1", "-w", "-std=gnu99", "-ffreestanding", "-nostdlib", "-static", "-fno-stack-protector", "-fno-pic", "-no-pie",
+           "-I" + os.path.join(HARNESS, "shim32"), "-I" + os.path.join(REPO, "include"), "-I" + HARNESS, os.path.join(HARNESS, "exec32.c")] + \
+          sorted(glob.glob(os.path.join(bind, "*.c"))) + lib_sources() + ["-o", exe]
+    r = subprocess.run(cmd, capture_output=True, text=True)
+    if r.returncode != 0:
+        raise CompileError("ILP32 build failed:\n%s" % r.stderr[-3000:])
     return exe
 
 
@@ -213,7 +231,7 @@ def run_tlc(module, cfg_text, wd, workers=None, timeout=1800, env=None, heap="6g
     if depth_first:
         jopts.append("-Dtlc2.tool.queue.IStateQueue=StateDeque")
     cmd = ["java"] + jopts + ["-cp", TLA_CP, "tlc2.TLC", "-workers", str(workers or min(NCPU, 16)), "-metadir", meta,
-           "-config", cfg]
+           "-config", cfg, "-noGenerateSpecTE"]
     if simulate:
         cmd += ["-simulate", simulate]
     if coverage:
